@@ -30,6 +30,9 @@ type env struct {
 	curPrompt *mcp.GetPromptResult
 	curRes    []mcp.ResourceContents
 	curErr    error
+	curTool   string // tool to call ("" = echo)
+	curArgs   any    // arguments to pass (nil = none): map[string]any, for prompts map[string]string
+	seenArgs  any    // what the handler saw
 
 	tools     []*mcp.Tool
 	prompts   []*mcp.Prompt
@@ -145,15 +148,18 @@ func (e *env) connect() error {
 			return mcp.NewTextResult("ok"), nil
 		})
 	}
-	reg.tool(mcp.NewTool("echo", mcp.WithDescription("returns the value under test")),
-		func(ctx context.Context, req *mcp.CallToolRequest) (*mcp.CallToolResult, error) {
-			if e.curErr != nil {
-				return nil, e.curErr
-			}
-			return e.curResult, nil
-		})
+	echoH := func(ctx context.Context, req *mcp.CallToolRequest) (*mcp.CallToolResult, error) {
+		e.seenArgs = req.Params.Arguments
+		if e.curErr != nil {
+			return nil, e.curErr
+		}
+		return e.curResult, nil
+	}
+	reg.tool(mcp.NewTool("echo", mcp.WithDescription("returns the value under test")), echoH)
+	reg.tool(mcp.NewTool(errToolName, mcp.WithDescription("the same under a name made of printf material")), echoH)
 	for _, p := range e.prompts {
 		reg.prompt(p, func(ctx context.Context, req *mcp.GetPromptRequest) (*mcp.GetPromptResult, error) {
+			e.seenArgs = req.Params.Arguments
 			if e.curErr != nil {
 				return nil, e.curErr
 			}
@@ -164,6 +170,7 @@ func (e *env) connect() error {
 		switch r.URI {
 		case uriMulti:
 			reg.resources(r, func(ctx context.Context, req *mcp.ReadResourceRequest) ([]mcp.ResourceContents, error) {
+				e.seenArgs = req.Params.Arguments
 				if e.curErr != nil {
 					return nil, e.curErr
 				}
@@ -207,6 +214,13 @@ func (e *env) connect() error {
 	return nil
 }
 
+func (e *env) toolName() string {
+	if e.curTool != "" {
+		return e.curTool
+	}
+	return "echo"
+}
+
 func (e *env) close() {
 	if e.peer != nil {
 		e.peer.close()
@@ -223,7 +237,11 @@ func (e *env) close() {
 func (e *env) callTool() (view any, err error) {
 	return e.bounded("tools/call", func() any { return viewResult(e.curResult) }, resultSize(e.curResult), func(ctx context.Context) (any, error) {
 		if e.peer != nil {
-			raw, rerr, err := e.peer.request(ctx, "tools/call", map[string]any{"name": "echo"})
+			params := map[string]any{"name": e.toolName()}
+			if e.curArgs != nil {
+				params["arguments"] = e.curArgs
+			}
+			raw, rerr, err := e.peer.request(ctx, "tools/call", params)
 			if err != nil {
 				return nil, err
 			}
@@ -237,7 +255,10 @@ func (e *env) callTool() (view any, err error) {
 			return viewResult(r), nil
 		}
 		req := &mcp.CallToolRequest{}
-		req.Params.Name = "echo"
+		req.Params.Name = e.toolName()
+		if a, ok := e.curArgs.(map[string]any); ok {
+			req.Params.Arguments = a
+		}
 		r, err := e.cl.CallTool(ctx, req)
 		if err != nil {
 			return nil, err
@@ -249,7 +270,11 @@ func (e *env) callTool() (view any, err error) {
 func (e *env) getPrompt() (view any, err error) {
 	return e.bounded("prompts/get", func() any { return viewPrompt(e.curPrompt) }, promptSize(e.curPrompt), func(ctx context.Context) (any, error) {
 		if e.peer != nil {
-			raw, rerr, err := e.peer.request(ctx, "prompts/get", map[string]any{"name": "echo"})
+			params := map[string]any{"name": "echo"}
+			if e.curArgs != nil {
+				params["arguments"] = e.curArgs
+			}
+			raw, rerr, err := e.peer.request(ctx, "prompts/get", params)
 			if err != nil {
 				return nil, err
 			}
@@ -264,6 +289,9 @@ func (e *env) getPrompt() (view any, err error) {
 		}
 		req := &mcp.GetPromptRequest{}
 		req.Params.Name = "echo"
+		if a, ok := e.curArgs.(map[string]string); ok {
+			req.Params.Arguments = a
+		}
 		r, err := e.cl.GetPrompt(ctx, req)
 		if err != nil {
 			return nil, err
@@ -275,7 +303,11 @@ func (e *env) getPrompt() (view any, err error) {
 func (e *env) readResource(uri string) (view any, err error) {
 	return e.bounded("resources/read", func() any { return map[string]any{"uri": uri, "contents": viewResources(e.curRes)} }, resourcesSize(e.curRes), func(ctx context.Context) (any, error) {
 		if e.peer != nil {
-			raw, rerr, err := e.peer.request(ctx, "resources/read", map[string]any{"uri": uri})
+			params := map[string]any{"uri": uri}
+			if e.curArgs != nil {
+				params["arguments"] = e.curArgs
+			}
+			raw, rerr, err := e.peer.request(ctx, "resources/read", params)
 			if err != nil {
 				return nil, err
 			}
@@ -290,6 +322,9 @@ func (e *env) readResource(uri string) (view any, err error) {
 		}
 		req := &mcp.ReadResourceRequest{}
 		req.Params.URI = uri
+		if a, ok := e.curArgs.(map[string]any); ok {
+			req.Params.Arguments = a
+		}
 		r, err := e.cl.ReadResource(ctx, req)
 		if err != nil {
 			return nil, err
@@ -444,6 +479,7 @@ func runE2E(c *hk.Ctx) {
 		e.promptPath()
 		e.resourcePath()
 		e.errorPath()
+		e.argsPath()
 		e.sizes()
 		e.finish()
 	}
@@ -766,53 +802,149 @@ func (e *env) resourcePath() {
 	}
 }
 
-// a handler's Go error must reach the caller as an error that carries the message
-func (e *env) errorPath() {
-	msgs := []string{}
-	for _, cl := range strClasses {
-		msgs = append(msgs, classRep[cl])
+// errToolName: a second tool on the echo handler whose NAME is printf material (the server quotes the tool's name in the
+// error message it builds around a tool handler's error).
+const errToolName = "fail 100%d %s"
+
+// wantClientError: the error text the caller of the unchanged library holds when a handler returned errors.New(m) - the fixed
+// wrapper around the handler's message, written from the code (manager_tools.go handleCallTool wraps, manager_prompt.go /
+// manager_resource.go pass err.Error() on; client.go CallTool / GetPrompt / ReadResource: "<op> error: %s (code: %d)").
+// Independent of the Lean model (which says the same: Mcp.Content.clientErrorText).
+func wantClientError(path, tool, m string) string {
+	switch path {
+	case "tool":
+		return "tool call error: tool execution failed (tool: " + tool + "): " + m + " (code: -32603)"
+	case "prompt":
+		return "get prompt error: " + m + " (code: -32603)"
 	}
-	msgs = append(msgs, bigString(70000))
-	nCls := len(msgs)
-	// protocol keywords / envelope look-alikes as the error text
-	msgs = append(msgs, protoTexts...)
-	for i, m := range msgs {
-		cl := "big"
-		if i < len(strClasses) {
-			cl = strClasses[i]
-		} else if i >= nCls {
-			cl = "keyword"
+	return "read resource error: " + m + " (code: -32603)"
+}
+
+// a handler's Go error must reach the caller as an error that carries the message - exactly the message
+func (e *env) errorPath() {
+	type em struct{ cl, m string }
+	var msgs []em
+	// printf material and protocol keywords / envelope look-alikes as the error text (fixed sets, every run; the smallest
+	// inputs first, so that the recorded witness of a failure is a minimal one)
+	for _, m := range printfTexts {
+		msgs = append(msgs, em{"printf", m})
+	}
+	for _, m := range protoTexts {
+		msgs = append(msgs, em{"keyword", m})
+	}
+	for _, cl := range strClasses {
+		msgs = append(msgs, em{cl, classRep[cl]})
+	}
+	msgs = append(msgs, em{"big", bigString(70000)})
+	// ... and strings drawn like the content strings
+	for i, n := 0, e.nRandom(40, 400); i < n; i++ {
+		cl := genClass(e.c.Rng)
+		m := genString(e.c.Rng, cl)
+		if i%4 == 0 {
+			m += genKeyword(e.c.Rng)
 		}
+		msgs = append(msgs, em{"random-" + cl, m})
+	}
+	type target struct{ path, op, tool, uri string }
+	targets := []target{{"tool", "tools/call", "echo", ""}, {"tool", "tools/call", errToolName, ""}, {"prompt", "prompts/get", "", ""},
+		{"resource", "resources/read", "", uriMulti}, {"resource", "resources/read", "", uriSingle}}
+	for _, x := range msgs {
+		m, cl := x.m, x.cl
 		e.curErr = errors.New(m)
 		e.curResult, e.curPrompt, e.curRes = mcp.NewTextResult("unused"), &mcp.GetPromptResult{}, []mcp.ResourceContents{mcp.TextResourceContents{URI: "u", Text: "t"}}
-		for _, path := range []string{"tool", "prompt", "resource"} {
+		for _, tg := range targets {
+			path := tg.path
 			var err error
 			var view any
 			switch path {
 			case "tool":
+				e.curTool = tg.tool
 				view, err = e.callTool()
+				e.curTool = ""
 			case "prompt":
 				view, err = e.getPrompt()
 			case "resource":
-				view, err = e.readResource(uriMulti)
+				view, err = e.readResource(tg.uri)
 			}
 			if e.lastNever {
 				continue // reported as content:<transport>:call-never-returns
 			}
-			if err != nil && modelOK([]byte(m)) && e.peer == nil {
+			if err != nil && modelOK([]byte(m)) {
 				// T-diff: the exact error text (server-side wrapping, client-side prefix, code)
-				e.c.Emit(op("e2e.error", "mode", e.mode, "path", path, "tool", "echo", "msg", m), map[string]any{"err": err.Error()}, true, "e2e.error."+e.mode)
+				tool := tg.tool
+				if tool == "" {
+					tool = "echo"
+				}
+				e.c.Emit(op("e2e.error", "mode", e.mode, "path", path, "tool", tool, "msg", m), map[string]any{"err": err.Error()}, true, "e2e.error."+e.mode)
 			} else {
 				e.c.Count("error:"+e.mode+":"+path+":"+cl, err != nil, nil, "e2e.error."+e.mode)
 			}
+			in := map[string]any{"op": tg.op, "handler returns errors.New": shorten(m), "string class": cl}
+			if tg.tool != "" {
+				in["tool"] = tg.tool
+			}
+			if tg.uri != "" {
+				in["uri"] = tg.uri
+			}
 			if err == nil {
 				e.violate("content:error:"+path+"-not-an-error", "a handler returned a Go error but the caller got a result", m, view, "an error carrying the message")
-			} else if !strings.Contains(err.Error(), m) {
+				continue
+			}
+			if want := wantClientError(path, tg.tool, m); err.Error() != want {
+				at, w, g := firstDiff(want, err.Error())
+				e.violate("content:"+e.mode+":handler-error-altered:"+tg.op, "the error text the caller holds is not the handler's message inside the library's fixed wrapper: the message was altered on the way",
+					in, map[string]any{"error": shorten(err.Error()), "first_difference_at": at, "got": g}, map[string]any{"error": shorten(want), "want": w})
+			}
+			if !strings.Contains(err.Error(), m) {
 				e.violate("content:error:"+path+"-message-lost", "the caller's error does not carry the handler's message (string class "+cl+")", shorten(m), shorten(err.Error()), "an error carrying the message")
 			}
 		}
 	}
 	e.curErr = nil
+}
+
+// argsPath: the other direction of the same wire - the argument values a caller passes are what the handler sees
+// (the shared vocabulary: protocol keywords, printf material, every string class; as values and as argument names).
+func (e *env) argsPath() {
+	e.curErr = nil
+	e.curResult, e.curPrompt, e.curRes = mcp.NewTextResult("ok"), &mcp.GetPromptResult{}, []mcp.ResourceContents{mcp.TextResourceContents{URI: "u", Text: "t"}}
+	texts := append(append([]string{}, protoTexts...), printfTexts...)
+	for _, cl := range strClasses {
+		texts = append(texts, classRep[cl])
+	}
+	for i, n := 0, e.nRandom(20, 200); i < n; i++ {
+		texts = append(texts, genString(e.c.Rng, genClass(e.c.Rng))+genKeyword(e.c.Rng))
+	}
+	for _, t := range texts {
+		sargs := map[string]string{"a": t, "k" + t: "v", "%s": t}
+		aargs := map[string]any{"a": t, "k" + t: "v", "%s": t, "nested": map[string]any{t: []any{t, 1, nil}}}
+		for _, opName := range []string{"tools/call", "prompts/get", "resources/read"} {
+			var want any = aargs
+			e.seenArgs = "handler not called"
+			var err error
+			switch opName {
+			case "tools/call":
+				e.curArgs = aargs
+				_, err = e.callTool()
+			case "prompts/get":
+				e.curArgs, want = sargs, sargs
+				_, err = e.getPrompt()
+			default:
+				e.curArgs = aargs
+				_, err = e.readResource(uriMulti)
+			}
+			e.curArgs = nil
+			if e.lastNever {
+				continue
+			}
+			ok := err == nil && canonText(want) == canonText(e.seenArgs)
+			e.c.Count("args:"+e.mode+":"+opName+":"+t, ok, nil, "e2e.args."+e.mode)
+			if !ok {
+				e.violate("content:"+e.mode+":argument-altered:"+opName, "the arguments the handler saw are not the arguments the caller passed", map[string]any{"op": opName, "arguments": want},
+					map[string]any{"handler saw": e.seenArgs, "call": obs(nil, err)}, want)
+			}
+		}
+	}
 }
 
 func (e *env) sizes() {
@@ -901,8 +1033,8 @@ func (e *env) descriptors() {
 				e.violate("content:descriptor:tool-parsed-schema-differs", "the InputSchema object the client rebuilt differs from the registered one", want, normJSON(g.InputSchema), nil)
 			}
 		}
-		if len(got) != len(e.tools)+1 { // + echo
-			e.violate("content:descriptor:tool-count", "tools/list returned a different number of tools than registered", len(e.tools)+1, len(got), nil)
+		if len(got) != len(e.tools)+2 { // + echo, errToolName
+			e.violate("content:descriptor:tool-count", "tools/list returned a different number of tools than registered", len(e.tools)+2, len(got), nil)
 		}
 		// T-diff: the model's decode . encode of the registered descriptors (sorted by name on both sides)
 		e.c.Emit(op("e2e.tools", "mode", e.mode, "v", regSpecs), map[string]any{"ok": map[string]any{"tools": gotSpecs, "next": string(lt.NextCursor)}}, true, "e2e.tools."+e.mode)
